@@ -37,6 +37,20 @@ pub struct HistRun {
 }
 
 pub fn run_history(h: &[Op], fx: &Fixtures, proto: Option<&crate::fixtures::Protos>) -> HistRun {
+	// A history that formats a schema while a panic is in flight runs on a thread of its own: whatever
+	// thread-local state the interrupted rendering leaves behind must neither reach the histories that
+	// follow in this process nor the reference runs (which stay on this thread).
+	if h.iter().any(|o| matches!(o, Op::DbgPanic(..))) {
+		return std::thread::scope(|sc| sc.spawn(|| run_history_here(h, fx, None)).join()).unwrap_or_else(|_| HistRun {
+			results: vec!["panic".to_owned(); h.len()],
+			findings: Vec::new(),
+			counters: Counters::default(),
+		});
+	}
+	run_history_here(h, fx, proto)
+}
+
+fn run_history_here(h: &[Op], fx: &Fixtures, proto: Option<&crate::fixtures::Protos>) -> HistRun {
 	let mut w = World::new(fx, proto);
 	for op in h {
 		w.apply(*op);
